@@ -119,7 +119,7 @@ fn round(seed_rng: &mut Rng, round_no: u64) -> Value {
         let nops = if big { 900 } else { 3 + seed_rng.below(5) };
         let mut ops = Vec::new();
         for _ in 0..nops {
-            ops.push(if big { 0 } else { seed_rng.below(8) });
+            ops.push(if big { 0 } else { seed_rng.below(9) });
         }
         desc.push(if big { json!({"thread": s, "sends": nops}) } else { json!({"thread": s, "ops": ops}) });
         let (sender, rec) = (sender.clone(), rec.clone());
@@ -128,8 +128,8 @@ fn round(seed_rng: &mut Rng, round_no: u64) -> Value {
             for (k, op) in ops.iter().enumerate() {
                 let item = (s as i64 + 1) * if big { 1000 } else { 100 } + k as i64;
                 set_current_item(item);
-                if *op <= 5 {
-                    rec.log(json!({"ev": "SendCall", "item": item, "kind": match op { 0 | 1 | 2 => "send", 3 => "try", _ => "block" }}));
+                if *op <= 5 || *op == 8 {
+                    rec.log(json!({"ev": "SendCall", "item": item, "kind": match op { 0 | 1 | 2 | 8 => "send", 3 => "try", _ => "block" }}));
                 }
                 if big && k % 50 == 49 {
                     std::thread::sleep(Duration::from_micros(300));
@@ -168,6 +168,18 @@ fn round(seed_rng: &mut Rng, round_no: u64) -> Value {
                         set_current_call_timeout(None);
                         rec.log(json!({"ev": "SendRet", "item": item, "res": r}));
                     }
+                    8 => {
+                        // a plain send issued from inside a sampler of the channel's own metrics (a metrics reporter whose
+                        // destination is the emitter it describes); Batcher.tla's op "sendS"
+                        let first = std::cell::Cell::new(true);
+                        let source = sender.metric_source();
+                        emit::metric::Source::sample_metrics(&source, emit::metric::sampler::from_fn(|_m| {
+                            if first.replace(false) {
+                                sender.send(item);
+                            }
+                        }));
+                        rec.log(json!({"ev": "SendRet", "item": item, "res": "sent"}));
+                    }
                     6 => {
                         let w = format!("w{}_{}", s, k);
                         set_current_watcher(&w, false);
@@ -200,11 +212,29 @@ fn round(seed_rng: &mut Rng, round_no: u64) -> Value {
         }));
     }
     let mut what = Vec::new();
+    // (with a watchdog: an operation on the caller's side that never returns must not wedge the harness)
+    let t_join = std::time::Instant::now();
+    let mut callers_hung = false;
     for t in threads {
+        while !t.is_finished() && t_join.elapsed() < Duration::from_secs(20) {
+            std::thread::sleep(Duration::from_micros(500));
+        }
+        if !t.is_finished() {
+            callers_hung = true;       // leaked: it sits in a channel operation that does not return
+            continue;
+        }
         if t.join().is_err() {
             what.push("a sender thread panicked".to_string());
             rec.log(json!({"ev": "CallerPanicked"}));
         }
+    }
+    if callers_hung {
+        what.push("an operation on a caller's thread (send / try_send / blocking send / flush / metrics sample) did not return within 20 s".to_string());
+        rec.log(json!({"ev": "CallerHung"}));
+        emit_batcher::verif::install(None);
+        let trace = rec.finish(cap, false);
+        return json!({"trace": trace, "hang": true, "what": what,
+               "case": {"round": round_no, "big": big, "cap": cap, "tokio": use_tokio, "fault_pct": fault_pct, "slow": slow, "threads": desc}});
     }
     // either a final flush, or a last send immediately followed by the drop of the sender: in both
     // cases the worker must deliver what is queued, fire what is registered and terminate
@@ -229,8 +259,12 @@ fn round(seed_rng: &mut Rng, round_no: u64) -> Value {
     // join with a watchdog
     let done = Arc::new(AtomicBool::new(false));
     let d2 = done.clone();
+    let recv_panicked = Arc::new(AtomicBool::new(false));
+    let rp2 = recv_panicked.clone();
     let joiner = std::thread::spawn(move || {
-        let _ = handle.join();
+        if handle.join().is_err() {
+            rp2.store(true, Ordering::SeqCst);
+        }
         d2.store(true, Ordering::SeqCst);
     });
     let t0 = std::time::Instant::now();
@@ -240,6 +274,11 @@ fn round(seed_rng: &mut Rng, round_no: u64) -> Value {
     let hang = !done.load(Ordering::SeqCst) || !r;
     if done.load(Ordering::SeqCst) {
         let _ = joiner.join();
+        if recv_panicked.load(Ordering::SeqCst) {
+            // the worker thread died of a panic that escaped Receiver::exec
+            what.push("the worker thread panicked".to_string());
+            rec.log(json!({"ev": "RecvPanicked"}));
+        }
     } else {
         what.push("worker did not terminate within 10 s of the sender being dropped".to_string());
     }
